@@ -18,6 +18,7 @@ import IcingaModel.C20.Dict
 import IcingaModel.C20.Limit
 import IcingaModel.C20.Utf8
 import IcingaModel.C20.SpecText
+import IcingaModel.C20.Conn
 import Std.Data.HashSet
 
 open Icinga Icinga.C20 Icinga.Proto
@@ -138,18 +139,21 @@ def tokCodec : NumCodec (List UInt8) := { fmt := id, parse := fun t => if jsonNu
     the model's `decodeLossy`; total. -/
 def utf8ToChars (bs : Bytes) : Option (List Char) := some (decodeLossy bs)
 
-/-- Parse value tokens (prefix order) into a model value; numbers become their wire text. -/
-def parseTokV : Nat → List String → Option (JV × List String)
+/-- Parse value tokens (prefix order) into a model value.  `bits = false`: numbers become their wire text (what the
+    encoder model prints: the decimal integer, resp. the oracle text of the number codec).  `bits = true`: numbers
+    become their VALUE — `i<k>` the integer k, `d<bits>:…` the binary64 bit pattern — for the bit-exact comparison of
+    the round trip (the text is ignored). -/
+def parseTokV (bits : Bool) : Nat → List String → Option (JV × List String)
   | 0, _ => none
   | _, [] => none
   | fuel + 1, t :: rest =>
     if t == "z" then some (.null, rest)
     else if t == "t" then some (.bool true, rest)
     else if t == "f" then some (.bool false, rest)
-    else if t.startsWith "i" then ((t.drop 1).toString.toInt?).map (fun i => (.num (intCodec.fmt i), rest))
+    else if t.startsWith "i" then ((t.drop 1).toString.toInt?).map (fun i => (.num (if bits then 105 :: intCodec.fmt i else intCodec.fmt i), rest))
     else if t.startsWith "d" then
       match (t.drop 1).toString.splitOn ":" with
-      | [_, h] => (unhex h).map (fun x => (.num x, rest))
+      | [b, h] => if bits then (if b.length == 16 then some (.num (100 :: b.toUTF8.toList), rest) else none) else (unhex h).map (fun x => (.num x, rest))
       | _ => none
     else if t.startsWith "s" then ((unhex (t.drop 1).toString).bind utf8ToChars).map (fun s => (.str s, rest))
     else if t.startsWith "a" then
@@ -159,7 +163,7 @@ def parseTokV : Nat → List String → Option (JV × List String)
         let rec elems : Nat → Nat → List String → List JV → Option (List JV × List String)
           | 0, _, r, acc => some (acc.reverse, r)
           | k + 1, f, r, acc =>
-            match parseTokV fuel r with
+            match parseTokV bits fuel r with
             | some (v, r') => elems k f r' (v :: acc)
             | none => none
         (elems n fuel rest []).map (fun (xs, r) => (.arr xs, r))
@@ -173,7 +177,7 @@ def parseTokV : Nat → List String → Option (JV × List String)
             match r with
             | kt :: r1 =>
               if kt.startsWith "k" then
-                match (unhex (kt.drop 1).toString).bind utf8ToChars, parseTokV fuel r1 with
+                match (unhex (kt.drop 1).toString).bind utf8ToChars, parseTokV bits fuel r1 with
                 | some key, some (v, r2) => members k r2 ((key, v) :: acc)
                 | _, _ => none
               else none
@@ -283,6 +287,7 @@ structure DSt where
   tErr : Nat := 0
   tEof : Nat := 0
   tKindDiff : Nat := 0
+  tViolating : Nat := 0
   bItems : Nat := 0
   bErr : Nat := 0
   fChunks : Nat := 0
@@ -303,6 +308,12 @@ structure DSt where
   mMsg : Nat := 0
   mRejected : Nat := 0
   crashes : Nat := 0
+  nC : Nat := 0
+  cDelivered : Nat := 0
+  cOverLimit : Nat := 0
+  nS : Nat := 0
+  sErr : Nat := 0
+  sModelCrash : Nat := 0
   failedClauses : List String := []
   mismatchKinds : List String := []
   seen : Std.HashSet UInt64 := {}
@@ -354,6 +365,10 @@ def handleT (d : DSt) (n : Nat) (line : String) (pre post : List String) : IO DS
         match tlsSpec max bs io with
         | some cl => d ← specfail d n cl
         | none => pure ()
+        match tlsRejectSpec max bs io with
+        | some cl => d ← specfail d n cl
+        | none => pure ()
+        if specViolation max bs then d := { d with tViolating := d.tViolating + 1 }
         d := match io with
           | .ok _ _ => { d with tOk := d.tOk + 1 }
           | .err _ => { d with tErr := d.tErr + 1 }
@@ -414,17 +429,20 @@ def handleJ (d : DSt) (n : Nat) (line : String) (pre post : List String) : IO DS
     | none => bad d n
     | some enc =>
       let mut d := { d with steps := d.steps + 1, nJ := d.nJ + 1 }
-      match parseTokV (tl.length + 1) tl with
+      match parseTokV false (tl.length + 1) tl with
       | some (v, []) =>
-        -- the property on the implementation's own observation: decoded value = original value — for strings
-        -- that are not well-formed UTF-8: the sanitised string; for keys that collide after sanitising: the
-        -- dictionary `Set` builds (sorted, last wins)
+        -- the property on the implementation's own observation: decoded value = original value, numbers compared
+        -- BIT-EXACTLY (binary64 bit pattern in = bit pattern out; the harness renders both zeros as the integer 0:
+        -- JsonEncode prints -0.0 as 0 by design) — for strings that are not well-formed UTF-8: the sanitised string;
+        -- for keys that collide after sanitising: the dictionary `Set` builds (sorted, last wins)
         if back != toks then
-          let want := renderV true (canonV v)
-          let got := (back.splitOn ",").map (normTok true)
-          if !toksEq want got then
-            d ← specfail d n .jsonRoundtrip
-          else d := { d with jSanitised := d.jSanitised + 1 }
+          let bl := back.splitOn ","
+          match parseTokV true (tl.length + 1) tl, parseTokV true (bl.length + 1) bl with
+          | some (vo, []), some (vb, []) =>
+            if renderV true (canonV vo) != renderV true (canonV vb) then
+              d ← specfail d n .jsonRoundtrip
+            else d := { d with jSanitised := d.jSanitised + 1 }
+          | _, _ => d ← specfail d n .jsonRoundtrip
         let me := jsonEncode tokCodec v
         if me != enc then
           d ← report d n "J" s!"encode impl={eh} model={hexOf me}"
@@ -548,6 +566,9 @@ def handleM (d : DSt) (n : Nat) (line : String) (pre post : List String) : IO DS
         match tlsSpec max bs fo with
         | some cl => d ← specfail d n cl
         | none => pure ()
+        match tlsRejectSpec max bs fo with
+        | some cl => d ← specfail d n cl
+        | none => pure ()
         return d
       | some none =>
         let restLen := (orest.getLast?.bind String.toNat?).getD 0
@@ -565,6 +586,7 @@ def handleM (d : DSt) (n : Nat) (line : String) (pre post : List String) : IO DS
               | some cl => d ← specfail d n cl
               | none => pure ()
         | none => d ← specfail d n .tlsOnlyCanonical
+        if specViolation max bs then d ← specfail d n .tlsViolationNotRejected
         -- model
         match mr with
         | .ok p rest =>
@@ -598,6 +620,115 @@ def handleU (d : DSt) (n : Nat) (line : String) (pre post : List String) : IO DS
     | _, _ => bad d n
   | _, _ => bad d n
 
+
+/-! ### a started connection (C lines), the state file (S lines) -/
+
+def ascii (s : String) : Bytes := s.toList.map (fun c => UInt8.ofNat c.toNat)
+
+/-- The message the harness's `ProbePayload(idx, pad)` writes. -/
+def probePayload (idx pad : Nat) : Bytes :=
+  ascii ("{\"jsonrpc\":\"2.0\",\"method\":\"verif::probe\",\"params\":{\"i\":" ++ toString idx ++ ",\"pad\":\"") ++ List.replicate pad 120 ++ ascii "\"}}"
+
+/-- items → the frames and the raw tail (a raw item is accepted only as the last one). -/
+def parseConnItems (items : String) : Option (List ConnFrame × Bytes) :=
+  if items == "-" then some ([], []) else
+  let rec go : Nat → List String → List ConnFrame → Option (List ConnFrame × Bytes)
+    | _, [], acc => some (acc.reverse, [])
+    | idx, it :: rest, acc =>
+      if it.startsWith "p" then
+        match (it.drop 1).toString.toNat? with
+        | some n => go (idx + 1) rest (⟨idx, probePayload idx n⟩ :: acc)
+        | none => none
+      else if it.startsWith "r" then
+        if rest.isEmpty then (unhex (it.drop 1).toString).map (fun t => (acc.reverse, t)) else none
+      else none
+  go 0 (items.splitOn ",") []
+
+def dictGetS (k : String) (kvs : List (List Char × JV)) : Option JV :=
+  (kvs.reverse.find? (fun kv => kv.1 == k.toList)).map (·.2)
+
+/-- The `i` of a verif::probe message. -/
+def probeId (kvs : List (List Char × JV)) : Option Nat :=
+  match dictGetS "method" kvs, dictGetS "params" kvs with
+  | some (.str m), some (.obj ps) =>
+    if m == "verif::probe".toList then
+      match dictGetS "i" ps with
+      | some (.num t) => (String.ofList (t.map (fun b => Char.ofNat b.toNat))).toNat?
+      | _ => none
+    else none
+  | _, _ => none
+
+/-- Ids the model delivers; `true` = it met a dictionary that is not a probe (what MessageHandler does with it is not
+    modelled: the comparison stops there). -/
+def modelDelivered : List (List (List Char × JV)) → List Nat → List Nat × Bool
+  | [], acc => (acc.reverse, false)
+  | kvs :: r, acc =>
+    match probeId kvs with
+    | some i => modelDelivered r (i :: acc)
+    | none => (acc.reverse, true)
+
+def handleC (d : DSt) (n : Nat) (line : String) (pre post : List String) : IO DSt := do
+  match pre, post with
+  | [a, e, items, _cuts], [dl, fin] =>
+    let deliv? : Option (List Nat) :=
+      if dl == "d-" then some [] else if dl.startsWith "d" then ((dl.drop 1).toString.splitOn ".").mapM String.toNat? else none
+    match parseConnItems items, deliv? with
+    | some (frames, tail), some delivered =>
+      let auth := a == "1"
+      let ep := e == "1"
+      let mut d := { d with steps := d.steps + 1 + delivered.length, nC := d.nC + 1, cDelivered := d.cDelivered + delivered.length }
+      match connSpec auth ep frames tail delivered (fin == "closed") with
+      | some cl => d ← specfail d n cl
+      | none => pure ()
+      let stream := connStream frames tail
+      -- model: the limit the constructor/receive loop select, the receive loop on the whole stream
+      let (ids, silent) := modelDelivered (connRecv tokCodec auth ep stream) []
+      if (if silent then !ids.isPrefixOf delivered else ids != delivered) then
+        d ← report d n "C" s!"delivered impl={delivered} model={ids}{if silent then "…" else ""}"
+      if (connExpected true frames).2 then d := { d with cOverLimit := d.cOverLimit + 1 }
+      if !delivered.isEmpty || !tail.isEmpty then d := d.mark line
+      return d
+    | _, _ => bad d n
+  | _, _ => bad d n
+
+/-- The record of the harness that applies to its probe object, and the value it carries. -/
+def goodRecord : Bytes := ascii "{\"type\":\"Host\",\"name\":\"vh\",\"update\":{\"type\":\"Host\",\"check_attempt\":3}}"
+
+/-- Model of RestoreObjects on a file (< 64 KiB: one fill): the buffered read loop, every item to RestoreObject.
+    (reader ended in an error, some record crashes) -/
+def isWs (b : UInt8) : Bool := b == 32 || b == 9 || b == 10 || b == 13
+
+/-- JSON whitespace around the value (the decoder model speaks about whitespace-free text). -/
+def stripWs (bs : Bytes) : Bytes := ((bs.dropWhile isWs).reverse.dropWhile isWs).reverse
+
+def modelRestore (file : Bytes) : Bool × Bool :=
+  let r := nsReadAll none (blocks 65536 (file.length + 1) file)
+  (r.final != .eof, r.items.any (fun p => restoreRecord tokCodec (stripWs (sanitiseD p)) == .crash))
+
+def handleS (d : DSt) (n : Nat) (line : String) (pre post : List String) : IO DSt := do
+  match pre with
+  | [hx] =>
+    let obs? : Option StateObs :=
+      match post with
+      | ["ok", k] => k.toNat?.map .ok
+      | ["err"] => some .err
+      | _ => none
+    match unhex hx, obs? with
+    | some file, some obs =>
+      let mut d := { d with steps := d.steps + 1, nS := d.nS + 1 }
+      match stateSpec goodRecord 3 file obs with
+      | some cl => d ← specfail d n cl
+      | none => pure ()
+      let (mErr, mCrash) := modelRestore file
+      if mCrash then d ← report d n "S" "model: a record crashes, implementation survived"
+      -- a file the reader model gets through must not be refused; whether damaged framing is an exception of
+      -- RestoreObjects or a silently shortened restore is not the property's business (compared on B lines, kind s)
+      else if !mErr && obs == .err then d ← report d n "S" "reader impl=err model=ok"
+      if obs == .err then d := { d with sErr := d.sErr + 1 }
+      return d.mark line
+    | _, _ => bad d n
+  | _ => bad d n
+
 def handle (d : DSt) (n : Nat) (line : String) : IO DSt := do
   let ws := words line
   match ws with
@@ -614,13 +745,19 @@ def handle (d : DSt) (n : Nat) (line : String) : IO DSt := do
     else if tag == "D" then handleD d n line pre post
     else if tag == "U" then handleU d n line pre post
     else if tag == "M" then handleM d n line pre post
+    else if tag == "C" then handleC d n line pre post
+    else if tag == "S" then handleS d n line pre post
     else if tag == "X" then
       -- the real code crashed / aborted / hung on this operation: the property's "processed without crashing"
       let d ← specfail d n .noCrash
-      return { d with crashes := d.crashes + 1 }
+      -- a state file the model says crashes would be counted apart (none: theorem restore_record_safe)
+      let known := match rest with
+        | [_, "S", hx] => (match unhex hx with | some f => (modelRestore f).2 | none => false)
+        | _ => false
+      return { d with crashes := d.crashes + 1, sModelCrash := d.sModelCrash + (if known then 1 else 0) }
     else bad d n
 
 def main : IO Unit := do
   let stdin ← IO.getStdin
   let d ← foldLines stdin handle ({} : DSt)
-  IO.println s!"STATS cases={d.caseNo} steps={d.steps} t={d.nT} f={d.nF} b={d.nB} j={d.nJ} k={d.nK} t_ok={d.tOk} t_err={d.tErr} t_eof={d.tEof} t_errkind_diff={d.tKindDiff} buf_items={d.bItems} buf_err={d.bErr} f_chunks={d.fChunks} j_escaped={d.jEsc} j_skipped={d.jSkipped} j_sanitised={d.jSanitised} u={d.nU} u_changed={d.uChanged} k_impl_ok={d.kImplOk} k_model_ok={d.kModelOk} k_model_stricter={d.kModelStricter} k_num_range={d.kNumRange} d={d.nD} m={d.nM} d_dict={d.dDict} d_rejected={d.dRejected} d_model_silent={d.dModelSilent} m_msg={d.mMsg} m_rejected={d.mRejected} crashes={d.crashes} nontrivial={d.seen.size} mismatches={d.mismatches} specfails={d.specfails}"
+  IO.println s!"STATS cases={d.caseNo} steps={d.steps} t={d.nT} f={d.nF} b={d.nB} j={d.nJ} k={d.nK} t_ok={d.tOk} t_err={d.tErr} t_eof={d.tEof} t_errkind_diff={d.tKindDiff} t_violating={d.tViolating} buf_items={d.bItems} buf_err={d.bErr} f_chunks={d.fChunks} j_escaped={d.jEsc} j_skipped={d.jSkipped} j_sanitised={d.jSanitised} u={d.nU} u_changed={d.uChanged} k_impl_ok={d.kImplOk} k_model_ok={d.kModelOk} k_model_stricter={d.kModelStricter} k_num_range={d.kNumRange} d={d.nD} m={d.nM} d_dict={d.dDict} d_rejected={d.dRejected} d_model_silent={d.dModelSilent} m_msg={d.mMsg} m_rejected={d.mRejected} c={d.nC} c_delivered={d.cDelivered} c_overlimit={d.cOverLimit} s={d.nS} s_err={d.sErr} s_model_crash={d.sModelCrash} crashes={d.crashes} nontrivial={d.seen.size} mismatches={d.mismatches} specfails={d.specfails}"
